@@ -151,6 +151,10 @@ func Judge(w *World, pre StateDump, raw []byte) *AuthVerdict {
 	v.Sig = st.Signature.Signature[:]
 	v.Addr = staking.NewAddress(v.Signer)
 	v.SigOK = ed25519.Verify(ed25519.PublicKey(v.Signer[:]), TxDigest(w.Doc.ChainContext(), st.Blob), v.Sig)
+	if SmallOrderPoint(v.Signer[:]) || (len(v.Sig) == 64 && SmallOrderPoint(v.Sig[:32])) {
+		// not bound to the message (see ed25519weak.go)
+		v.SigOK = false
+	}
 	v.SanityOK = tx.SanityCheck() == nil
 	v.Reserved = v.Addr.IsReserved()
 	_, v.System = map[transaction.MethodName]bool{"consensus.Meta": true}[tx.Method]
